@@ -11,15 +11,16 @@ class ReplayDivergence(HarnessError):
 
 
 class Chooser(object):
-    __slots__ = ('prefix', 'expect', 'points', 'choices', 'labels', 'strict')
+    __slots__ = ('prefix', 'expect', 'points', 'choices', 'labels', 'strict', 'lenient')
 
-    def __init__(self, prefix=(), expect=None, strict=False):
+    def __init__(self, prefix=(), expect=None, strict=False, lenient=False):
         self.prefix = list(prefix)
         self.expect = expect          # list of (kind, n) for the prefix positions (may be shorter)
         self.points = []              # (kind, n, costs)
         self.choices = []
         self.labels = []
         self.strict = strict          # replay-only: running past the prefix with n > 1 is an error
+        self.lenient = lenient        # replay what fits: a recorded choice that does not exist at this point becomes the default
 
     def choose(self, kind, n, costs=None, label=None):
         if n < 1:
@@ -29,6 +30,8 @@ class Chooser(object):
         i = len(self.choices)
         if i < len(self.prefix):
             c = self.prefix[i]
+            if self.lenient and not 0 <= c < n:
+                c = 0
             if not 0 <= c < n:
                 raise ReplayDivergence('point %d (%s): recorded choice %d but only %d options' % (i, kind, c, n))
             if self.expect is not None and i < len(self.expect):
